@@ -64,7 +64,7 @@ type Profile struct {
 	Mutations     bool
 	Subscriptions bool
 	Uploads       bool
-	SharedRoots   bool // same root field name on Query and Mutation
+	SharedRoots   bool    // same root field name on Query and Mutation
 	DropNode      float64 // probability a service omits Query.node although it has entities
 	Directives    bool
 	Descriptions  bool
@@ -92,7 +92,7 @@ type Universe struct {
 	Subs     []*Field
 	DropNode []bool // per service
 	DirDefs  []string
-	DirSvc   [][]bool // DirSvc[d][s]: directive d is declared by service s
+	DirSvc   [][]bool              // DirSvc[d][s]: directive d is declared by service s
 	EnumSvc  map[string][][]string // EnumSvc[enum][s]: values service s declares (spread enums)
 	byName   map[string]*TypeDef
 }
@@ -102,14 +102,14 @@ func (u *Universe) Type(n string) *TypeDef { return u.byName[n] }
 func ServiceURL(i int) string { return fmt.Sprintf("http://svc%d.test/graphql", i) }
 
 var (
-	entityNames = []string{"Human", "Robot", "Planet", "Ship", "Film", "Guild", "Droid", "Moon"}
-	valueNames  = []string{"Addr", "Stats", "Geo", "Meta", "Tag"}
-	ifaceNames  = []string{"Actor", "Thing", "Owner"}
-	unionNames  = []string{"Hit", "Any", "Cargo"}
-	fieldNames  = []string{"name", "age", "title", "score", "rank", "code", "mass", "note", "kind", "size", "flag", "label", "count", "ratio"}
-	refNames    = []string{"friend", "owner", "home", "boss", "peer", "item", "lead", "pal"}
-	listNames   = []string{"friends", "crew", "parts", "items", "mates", "films", "ships", "moons"}
-	rootNames   = []string{"hero", "search", "all", "top", "find", "list", "one", "main", "first", "pick", "get", "show"}
+	entityNames     = []string{"Human", "Robot", "Planet", "Ship", "Film", "Guild", "Droid", "Moon"}
+	valueNames      = []string{"Addr", "Stats", "Geo", "Meta", "Tag"}
+	ifaceNames      = []string{"Actor", "Thing", "Owner"}
+	unionNames      = []string{"Hit", "Any", "Cargo"}
+	fieldNames      = []string{"name", "age", "title", "score", "rank", "code", "mass", "note", "kind", "size", "flag", "label", "count", "ratio"}
+	refNames        = []string{"friend", "owner", "home", "boss", "peer", "item", "lead", "pal"}
+	listNames       = []string{"friends", "crew", "parts", "items", "mates", "films", "ships", "moons"}
+	rootNames       = []string{"hero", "search", "all", "top", "find", "list", "one", "main", "first", "pick", "get", "show"}
 	ifaceFieldNames = [][]string{{"alpha", "beta"}, {"gamma", "delta"}, {"omega", "sigma"}}
 )
 
